@@ -124,6 +124,10 @@ func (m *Matcher) Loop() {
 				prevCount = count
 				m.mergerCache = make(map[string]*Merger)
 			}
+		} else {
+			// mergerCache was reset for the new revision or sort order;
+			// what goes into it from now on is for this item count
+			prevCount = count
 		}
 
 		if merger == nil {
